@@ -131,3 +131,14 @@ PROPS.update({
         "min_reach": {"any": ["reach:louvain-on-tie-rich-graph", "reach:call-under-pool-of-16-threads", "reach:call-under-pool-of-1-threads", "reach:fresh-processes-compared", "cases:kind0"]},
     },
 })
+
+PROPS.update({
+    "C20": {
+        "custom": "c20",
+        "level": "exploration",
+        "rule": "an explicit table of ~100 public functions (Graph queries, degrees, density, matrix, derived graphs, ensure_*, every function of algorithms::*, generators, GraphML I/O, Edge/Node/GraphSpecs constructors, mutation entry points) with argument recipes: every existing node / pair, one absent name for functions with a Result/Option channel, weighted in {false,true}, k in {1,2,n,n+1}, partitions in {singletons, whole, foreign-name, overlapping}. Graphs: EXHAUSTIVE small scope - for each of the 8 kinds every graph on n<=2 (quick) / n<=3 (thorough) nodes (all subsets of the allowed pairs incl. loops; multi-edge kinds also doubled edges) x {unweighted, weighted} - plus named degenerate shapes and random graphs (n<=12; self-loop-only, parallel-only, stars, paths, components, ...). Every call runs under catch_unwind, the Louvain step budget and the CPU watchdog, in two builds (checked: overflow checks + debug assertions; plain release); per-case digests of all returned values are compared across the builds. Non-trivial = every graph; distinct = distinct graph hashes.",
+        "assumptions": COMMON + ["functions without an error channel are only called with names that exist", "weights are positive or NaN (negative weights are outside the property)", "no value oracle here (values are C02-C18's business); only totality and cross-build agreement"],
+        "min_reach": {"any": ["exhaustive:scope-completed", "exhaustive:DML:n2", "exhaustive:USN:n2", "shapes:star", "reach:cases-compared-across-builds"]},
+        "exhaustive": False,
+    },
+})
